@@ -17,6 +17,7 @@
   is a key of the JSON object of POST /allocations and /reshaper, so it occurs once).
   Helper lemmas: `Placement.Lemmas.{ConsIff,ConsAttr}` (one lemma per handler).
 -/
+import Placement.Lemmas.GuardTie
 import Placement.Lemmas.ConsAttrPost
 import Placement.Lemmas.WfExample
 
